@@ -41,5 +41,163 @@ class ReadNonblockingIface(Contract):
         return out
 
 
+# =============================================================================================
+# the expect family on SpawnBase (C01, C04, C05)
+# =============================================================================================
+from .expect import (expect_outcome_post, expect_outcomes, expect_modifies, expect_effects, pend_of, sbuf_of,
+                     W_ok)
+
+
+def spawn_inv(sp):
+    """Class invariant of a spawn object as far as the expect family needs it."""
+    d = sp.delayafterread
+    out = [('inv', INV_buf(sp)), ('maxread-positive', sp.maxread >= 1),
+           ('delay-nonneg', True if d is None else d >= 0)]
+    if sp.has('searchwindowsize'):
+        out.append(('spawn-W-domain', W_ok(sp.searchwindowsize)))
+    return out
+
+
+def api_spawn(b):
+    sp, kind = spawn_shape(b, name='self', loop=True, defaults=True)
+    b.ghost('R', '')
+    b.ghost('clk', b.real('clk0'))
+    return sp, kind
+
+
+def timeout_param(b):
+    c = b.choice('timeout', ['default', 'none', 'some'])
+    if c == 'default':
+        return b.const(-1)
+    if c == 'none':
+        return b.none()
+    return b.real('timeout')
+
+
+def window_param(b):
+    c = b.choice('searchwindowsize', ['default', 'none', 'some'])
+    if c == 'default':
+        return b.const(-1)
+    if c == 'none':
+        return b.none()
+    return b.int('searchwindowsize')
+
+
+def effective_timeout(sp, t):
+    """-1 means the instance default (C05)."""
+    if isinstance(t, int) and not isinstance(t, bool) and t == -1:
+        return sp.timeout
+    return t
+
+
+def param_domains(v):
+    out = []
+    t = v.a.timeout
+    if t is not None and not isinstance(t, int):
+        out.append(('timeout-not-sentinel', Not(eq(t, -1))))
+    if v.a.has('searchwindowsize'):
+        w = v.a.searchwindowsize
+        if w is not None and not (isinstance(w, int) and w == -1):
+            out.append(('W-domain', w >= 1))
+    return out
+
+
+class SetBuffer(Contract):
+    name = SPAWNBASE + '._set_buffer'
+    props = ('C01',)
+
+    def shape(self, b):
+        sp, kind = spawn_shape(b, name='self')
+        return dict(self=sp, value=b.str('value', kind))
+
+    def modifies(self, v, out):
+        sp = v.old.self
+        k = io_kind(sp._before)
+        return [(sp, '_buffer', TIo(k)), (sp, '_before', TIo(k))]
+
+    def ensures(self, v):
+        new = v.new.self
+        # C01: "assigning to the buffer attribute replaces the pending text"
+        return [('inv', INV_buf(new)),
+                ('replaces-pending-text', And(eq(pend_of(new), v.old.value), eq(sbuf_of(new), v.old.value)))]
+
+
+class GetBuffer(Contract):
+    name = SPAWNBASE + '._get_buffer'
+    props = ('C01',)
+    inline = True
+
+    def shape(self, b):
+        sp, kind = spawn_shape(b, name='self')
+        return dict(self=sp)
+
+    def outcomes(self, v):
+        return [Ret(TStr(io_kind(v.old.self._buffer)))]
+
+    def ensures(self, v):
+        return [('is-search-buffer', eq(v.result, sbuf_of(v.old.self)))]
+
+
+class ExpectList(Contract):
+    name = SPAWNBASE + '.expect_list'
+    props = ('C01', 'C04', 'C05')
+
+    def shape(self, b):
+        sp, kind = api_spawn(b)
+        return dict(self=sp, pattern_list=b.symlist('pattern_list', [('p', TPat(TRegex(kind)))], scalar=True),
+                    timeout=timeout_param(b), searchwindowsize=window_param(b), async_=b.const(False))
+
+    def requires(self, v):
+        return spawn_inv(v.a.self) + param_domains(v)
+
+    def outcomes(self, v):
+        return expect_outcomes()
+
+    def exits(self, v):
+        return ('EOF', 'TIMEOUT', 'OSError')
+
+    def modifies(self, v, out):
+        return expect_modifies(v.old.self, out.label)
+
+    def effects(self, v):
+        expect_effects(v, v.old.self)
+
+    def ensures(self, v):
+        sp = v.old.self
+        return expect_outcome_post(v, sp, v.new.self, effective_timeout(sp, v.old.timeout), plist=v.old.pattern_list)
+
+
+class ExpectLoopSB(ExpectList):
+    """SpawnBase.expect_loop(searcher, timeout, searchwindowsize): public entry point taking a searcher."""
+    name = SPAWNBASE + '.expect_loop'
+
+    def shape(self, b):
+        sp, kind = api_spawn(b)
+        return dict(self=sp, searcher=searcher_shape(b, lookback=True), timeout=timeout_param(b),
+                    searchwindowsize=window_param(b))
+
+    def requires(self, v):
+        se = v.a.searcher
+        ls = [('L-domain', se.longest_string >= 0)] if se.has('longest_string') else []
+        return spawn_inv(v.a.self) + param_domains(v) + ls
+
+    def modifies(self, v, out):
+        return expect_modifies(v.old.self, out.label, v.old.searcher)
+
+    def ensures(self, v):
+        sp, se = v.old.self, v.old.searcher
+        return expect_outcome_post(v, sp, v.new.self, effective_timeout(sp, v.old.timeout),
+                                   eof_index=se.eof_index, timeout_index=se.timeout_index, new_searcher=v.new.searcher)
+
+
+def register_api(reg):
+    for c in (SetBuffer, GetBuffer, ExpectList, ExpectLoopSB):
+        reg.add(c)
+    reg.inline_ok.update({'pexpect.expect.Expecter.__init__'})
+
+
 def register(reg):
     reg.add(ReadNonblockingIface)
+    register_api(reg)
+
+
